@@ -1,5 +1,6 @@
 import RosuModel.Lemmas.ManiaPatternTotal
 import RosuModel.Lemmas.ManiaPatternSafeLoop
+import RosuModel.Lemmas.ManiaPattern8K
 
 /-!
 # C05 (mania pattern generators) — which checked operations can fail, and when they cannot
@@ -155,5 +156,30 @@ theorem slider_time_overflow_witness :
       ⟨4, 256, 0, 2 ^ LOW_PROBABILITY, Pat.empty, 0, 2, 2147483397, 2147483597, 100, [0, 0, 0], 100⟩
       (Osu.new 0)) = some .arith := by
   decide +kernel
+
+
+/-! ## round 6: the 7K+1 occupancy invariant (hit-object side) -/
+
+/-- `Inv8` (pattern inside `[0,8)`, at most 6 distinct columns, a lone note not in the special
+column) implies the `Free8` hypothesis of `convert_step_never_fails`. -/
+theorem inv8_implies_free8 {p : Pat} (h : Inv8 p) : Free8 p := h.free8
+
+/-- **The hit-object generator preserves `Inv8` in 7K+1** whenever `MIRROR` is not set
+(`HitObjectPatternGenerator::new` sets it only for `total_columns != 8`): REVERSE / FORCE_STACK emit
+one note per occupied column 1–7 of the previous pattern, CYCLE / STAIR / REVERSE_STAIR a single
+note in 1–7 (the `-1 as u8` step needs a lone previous note in column 0, excluded by `Inv8`),
+`generate_random_notes` between 1 and 5 notes in 1–7 (`min(7 − occupancy, n) ≥ 1` because
+occupancy ≤ 6), plus at most the special column. -/
+theorem hit_generator_preserves_inv8 {A : PArith F} (hP : ProbLaw A) (g : HitIn F) (h8 : g.total = 8)
+    (hprev : Inv8 g.prev) (hmir : has g.ct MIRROR = false) (stair : Nat) (s : Osu)
+    (r : Pat × Osu × Nat) (h : hitGenerate A g stair s = .ok r) : Inv8 r.1 :=
+  hitGenerate_inv8 hP g h8 hprev hmir stair s r h
+
+/-- **7K+1 without sliders: the whole conversion never fails**, with NO hypothesis on intermediate
+patterns (circles without `MIRROR`, spinners and hold notes; from the initial state). -/
+theorem convert_never_fails_7K1_without_sliders {A : PArith F} (hP : ProbLaw A) (cd : F) (fuel : Nat)
+    (seed : Int) (os : List (ObjIn F)) (hwf : ∀ o ∈ os, NoSlider8 o) :
+    OkOrFuel (convertLoop A 8 cd fuel (ConvSt.init seed) os) :=
+  convertLoop_safe_8K_no_sliders hP cd fuel os _ Inv8.empty hwf
 
 end Rosu.C05d
